@@ -129,4 +129,9 @@ Nearest(sc, c0, z0, ts, p) ==
   IN IF cov = {} THEN <<c0, z0>>
      ELSE LET t == CHOOSE t \in cov : \A u \in cov : sc.fp[u][p] <= sc.fp[t][p]
           IN <<sc.col[t], sc.fp[t][p]>>
+
+\* the same under a shader that discards the fragments at sc.dpix: a discarded
+\* fragment covers nothing, so it neither shows nor occludes
+NearestD(sc, ctx, c0, z0, ts, p) ==
+  IF Discarded(sc, ctx, p) THEN <<c0, z0>> ELSE Nearest(sc, c0, z0, ts, p)
 =============================================================================
